@@ -48,7 +48,7 @@ LEVEL_TEXT = ("Lean 4 theorems for all sizes and all operation histories: the he
               "closed-form models for all operands; their values are Matrix.mulVec / vecMul / dotProduct for all dimensions over "
               "any semiring (Vec*TransMat: what the code computes, known finding). Round 10: also the loops of Mat*Mat (pointer version), "
               "TransMat*Mat, Mat*TransMat, TransMat*TransMat, trans(TransMat) and the storage primitives MatVecBase::mul/add/sub and "
-              "operator*= (16 regenerated functions in all) are regenerated and proved EQUAL to the executed models "
+              "operator*= (16 regenerated functions at round 10; 18 since rounds 12-13 with Mat*SymMat and SymMat*SymMat: C15_mat_symmat_source_tie, C15_symmat_symmat_source_tie, C15_symmat_symmat_as_coded) are regenerated and proved EQUAL to the executed models "
               "(C15_matrix_kernels_source_tie); the four matrix products equal Matrix.mul of the (transposed) views for all dimensions, "
               "trans(TransMat) returns the transposed view, the primitives return the entrywise result whatever the target held "
               "(C15_mat_mat_value, C15_transmat_mat_value, C15_mat_transmat_value, C15_transmat_transmat_value, C15_trans_view, "
